@@ -16,7 +16,7 @@ for s in $seeds; do
   d=/verif/seeded/$s
   [ -f $d/patch.diff ] || continue
   own=${s%%-*}
-  ids=$(python3 -c "import json,sys; m=json.load(open('$d/meta.json')); print(' '.join(sorted(set(['$own']+[k for k,v in m.get('checks_run',{}).items() if v.get('caught')]))))")
+  ids=$(python3 -c "import json,sys,os; m=json.load(open('$d/meta.json')); print(' '.join(sorted(set(os.environ.get('EXTRA','').split()+['$own']+[k for k,v in m.get('checks_run',{}).items() if v.get('caught')]))))")
   if ! git -C $MT/repo apply $d/patch.diff 2>/dev/null; then echo -e "$s\t-\t-\tpatch does not apply" >> $MT/results.tsv; continue; fi
   for id in $ids; do
     out=$(cd $MT/verif && VERIF_SEED=1 timeout 1500 ./check $id quick 2>&1); rc=$?
